@@ -121,6 +121,16 @@ fn pure_programs(quick: bool) -> Vec<Program> {
             }
         }
     }
+    // the static goals `true` / `false` as conjuncts and as whole disjuncts (every position is
+    // reached by the permutations): constructors and operators that special-case them when a
+    // goal is built must not change the meaning
+    items.push(G::Succeed);
+    for (i, a) in lits.iter().enumerate().take(4) {
+        let b = lits[(i + 2) % lits.len()].clone();
+        items.push(G::Conde(vec![vec![a.clone()], vec![b.clone()], vec![G::Fail]]));
+        items.push(G::Conde(vec![vec![a.clone(), G::Fail], vec![b.clone()], vec![G::Succeed]]));
+        items.push(G::Conde(vec![vec![G::Succeed, a.clone()], vec![b.clone(), G::Succeed]]));
+    }
     for (i, a) in hl.iter().enumerate() {
         for (j, b) in hl.iter().enumerate() {
             if i < j {
